@@ -7,8 +7,19 @@ import (
 	"github.com/smarthome-go/homescript/v3/homescript/errors"
 )
 
-// TODO: set maximum recursion here
+// A failed cast is a normal exception which can be caught by the program (like on the VM).
 func DeepCast(val Value, typ ast.Type, span errors.Span, allowCasts bool) (*Value, *Interrupt) {
+	res, i := deepCast(val, typ, span, allowCasts)
+	if i != nil {
+		if runtimeErr, isRuntimeErr := (*i).(RuntimeErr); isRuntimeErr && runtimeErr.ErrKind == CastErrorKind {
+			return nil, NewThrowInterrupt(runtimeErr.Span, fmt.Sprintf("Cast error: %s", runtimeErr.MessageInternal))
+		}
+	}
+	return res, i
+}
+
+// TODO: set maximum recursion here
+func deepCast(val Value, typ ast.Type, span errors.Span, allowCasts bool) (*Value, *Interrupt) {
 	// This does nothing as casting to an `any` does not validate anything.
 	if typ.Kind() == ast.AnyTypeKind {
 		return &val, nil
@@ -26,7 +37,7 @@ func DeepCast(val Value, typ ast.Type, span errors.Span, allowCasts bool) (*Valu
 			valInner := *valOption.Inner
 			typInner := typOption.Inner
 
-			innerCast, i := DeepCast(valInner, typInner, span, allowCasts)
+			innerCast, i := deepCast(valInner, typInner, span, allowCasts)
 			if i != nil {
 				return nil, i
 			}
@@ -34,7 +45,7 @@ func DeepCast(val Value, typ ast.Type, span errors.Span, allowCasts bool) (*Valu
 		}
 
 		// A value of type `T` is only admitted into `?T` if it conforms to `T`.
-		innerCast, i := DeepCast(val, typ.(ast.OptionType).Inner, span, allowCasts)
+		innerCast, i := deepCast(val, typ.(ast.OptionType).Inner, span, allowCasts)
 		if i != nil {
 			return nil, i
 		}
@@ -145,7 +156,7 @@ func DeepCast(val Value, typ ast.Type, span errors.Span, allowCasts bool) (*Valu
 				found := false
 				for _, otherField := range objType.ObjFields {
 					if key == otherField.FieldName.Ident() {
-						newField, i := DeepCast(*field, otherField.Type, span, allowCasts)
+						newField, i := deepCast(*field, otherField.Type, span, allowCasts)
 						if i != nil {
 							return nil, i
 						}
@@ -190,7 +201,7 @@ func DeepCast(val Value, typ ast.Type, span errors.Span, allowCasts bool) (*Valu
 
 			outputList := make([]*Value, 0)
 			for _, item := range *listVal.Values {
-				newVal, i := DeepCast(*item, asType.Inner, span, allowCasts)
+				newVal, i := deepCast(*item, asType.Inner, span, allowCasts)
 				if i != nil {
 					return nil, i
 				}
@@ -227,7 +238,7 @@ func DeepCast(val Value, typ ast.Type, span errors.Span, allowCasts bool) (*Valu
 		}
 
 		// otherwise, the inner type must also match
-		return DeepCast(*opt.Inner, optType, span, allowCasts)
+		return deepCast(*opt.Inner, optType, span, allowCasts)
 	case ClosureValueKind, FunctionValueKind, BuiltinFunctionValueKind:
 		panic("Unreachable, the analyzer prevents this")
 	case NullValueKind:
